@@ -98,3 +98,74 @@ def run_method(func_node, state: dict, effect_methods) -> list[str]:
     except _Return:
         pass
     return effects
+
+
+# ---------------------------------------------------------------------------------------------
+# Straight-line blocks over local integers and small dicts of integers (used for index bookkeeping)
+
+def _lexpr(e, env):
+    if isinstance(e, ast.Constant):
+        return e.value
+    if isinstance(e, ast.Name):
+        if e.id not in env:
+            raise AnalysisError(f"miniexec: local `{e.id}` has no value")
+        return env[e.id]
+    if isinstance(e, ast.Subscript) and isinstance(e.slice, ast.Constant):
+        return _lexpr(e.value, env)[e.slice.value]
+    if isinstance(e, ast.UnaryOp) and isinstance(e.op, ast.Not):
+        return not _lexpr(e.operand, env)
+    if isinstance(e, ast.UnaryOp) and isinstance(e.op, ast.USub):
+        return -_lexpr(e.operand, env)
+    if isinstance(e, ast.BoolOp):
+        vals = [_lexpr(v, env) for v in e.values]
+        return all(vals) if isinstance(e.op, ast.And) else any(vals)
+    if isinstance(e, ast.BinOp) and type(e.op) in _BIN:
+        return _BIN[type(e.op)](_lexpr(e.left, env), _lexpr(e.right, env))
+    if isinstance(e, ast.Compare):
+        left = _lexpr(e.left, env)
+        for op, c in zip(e.ops, e.comparators):
+            right = _lexpr(c, env)
+            if type(op) not in _CMP:
+                raise AnalysisError(f"miniexec: unsupported comparison {A.short(e)}")
+            if not _CMP[type(op)](left, right):
+                return False
+            left = right
+        return True
+    if isinstance(e, ast.Call):
+        cn = A.call_name(e)
+        if cn == "sum" and len(e.args) == 1 and isinstance(e.args[0], ast.Call) and isinstance(e.args[0].func, ast.Attribute) and e.args[0].func.attr == "values":
+            return sum(_lexpr(e.args[0].func.value, env).values())
+        if cn in ("max", "min") and not e.keywords:
+            vals = [_lexpr(a, env) for a in e.args]
+            return max(vals) if cn == "max" else min(vals)
+    if isinstance(e, ast.Tuple):
+        return tuple(_lexpr(x, env) for x in e.elts)
+    raise AnalysisError(f"miniexec: unsupported expression `{A.short(e, 70)}`")
+
+
+def run_local_block(stmts, env: dict) -> None:
+    """Interpret assignments / augmented assignments / ifs over local ints and dicts of ints; env is mutated."""
+    for s in stmts:
+        if isinstance(s, ast.Pass) or (isinstance(s, ast.Expr) and isinstance(s.value, ast.Constant)):
+            continue
+        if isinstance(s, ast.If):
+            run_local_block(s.body if _lexpr(s.test, env) else s.orelse, env)
+            continue
+        if isinstance(s, (ast.Assign, ast.AugAssign)):
+            tgt = s.targets[0] if isinstance(s, ast.Assign) else s.target
+            val = _lexpr(s.value, env)
+            if isinstance(s, ast.AugAssign):
+                if type(s.op) not in _BIN:
+                    raise AnalysisError(f"miniexec: unsupported operator in `{A.short(s, 70)}`")
+                val = _BIN[type(s.op)](_lexpr(tgt, env), val)
+            if isinstance(tgt, ast.Name):
+                env[tgt.id] = val
+            elif isinstance(tgt, ast.Subscript) and isinstance(tgt.slice, ast.Constant):
+                _lexpr(tgt.value, env)[tgt.slice.value] = val
+            elif isinstance(tgt, ast.Tuple) and isinstance(val, tuple) and all(isinstance(t, ast.Name) for t in tgt.elts):
+                for t, v in zip(tgt.elts, val):
+                    env[t.id] = v
+            else:
+                raise AnalysisError(f"miniexec: unsupported assignment target in `{A.short(s, 70)}`")
+            continue
+        raise AnalysisError(f"miniexec: statement outside the bookkeeping fragment: `{A.short(s, 80)}`")
